@@ -53,6 +53,11 @@ var c11Scens = []scen{
 	{"ocra 1||2", []string{"ocra-short"}, [][]string{{"ocra-short"}, {"ocra-long", "ocra-validate-hit"}}, [2]int{1, 2}, false},
 	{"ocra 1||2 cold", nil, [][]string{{"ocra-long"}, {"ocra-short", "ocra-long-2"}}, [2]int{1, 2}, false},
 	{"hotp 1||2", []string{"hotp-c1"}, [][]string{{"hotp-10digits"}, {"hotp-c2^40-sha256-8", "totp-gen"}}, [2]int{1, 2}, false},
+	{"first use: list||list", nil, [][]string{{"list-suites"}, {"list-suites"}}, [2]int{2, 3}, false},
+	{"first use: parse||parse||list", nil, [][]string{{"suite-parse-1"}, {"suite-parse-1"}, {"list-suites"}}, [2]int{1, 2}, false},
+	{"first use: hotp||hotp same call", nil, [][]string{{"hotp-c1"}, {"hotp-c1"}}, [2]int{2, 3}, false},
+	{"first use: ocra||ocra same call", nil, [][]string{{"ocra-short"}, {"ocra-short"}}, [2]int{2, 3}, false},
+	{"first use: url||decode||random", nil, [][]string{{"url-totp"}, {"decode-secret-1"}, {"random-secret-0"}}, [2]int{1, 2}, false},
 	{"3xhotp retained", []string{"hotp-c1"}, [][]string{{"hotp-c1", "hotp-1digit"}, {"hotp-c2^40-sha256-8"}, {"hotp-10digits"}}, [2]int{1, 2}, false},
 	{"hotp||hotp||gc unbounded-at-pool-ops", []string{"hotp-c1"}, [][]string{{"hotp-c1", "totp-gen"}, {"hotp-c2^40-sha256-8", "hotp-1digit"}, {"gc"}}, [2]int{-1, -1}, true},
 	{"ocra||ocra||adversary unbounded-at-pool-ops", []string{"ocra-short"}, [][]string{{"ocra-short", "ocra-long"}, {"ocra-validate-hit"}, {"adversary-6287"}}, [2]int{-1, -1}, true},
@@ -70,10 +75,12 @@ type c11Env struct {
 	ops    []hop
 	byName map[string]int
 	base   map[string]uint64 // non-pool globals at start
+	snap   irt.Snapshot      // all package-level variables before the library was first used
 }
 
 func newC11Env() *c11Env {
 	e := &c11Env{byName: map[string]int{}}
+	e.snap = irt.SnapshotGlobals() // first thing: nothing of the library has run yet
 	e.ops = append(buildOps(), advOps()...)
 	for i, o := range e.ops {
 		e.byName[o.name] = i
@@ -102,6 +109,7 @@ func nonPool(g map[string]uint64) map[string]uint64 {
 
 // runHistory replays a sequence of operations from reset pools and checks every step.
 func (e *c11Env) runHistory(path []int) (obs, bad string) {
+	e.snap.Restore()
 	irt.ResetPools()
 	var kept []retained
 	for step, i := range path {
@@ -128,6 +136,9 @@ func (e *c11Env) runHistory(path []int) (obs, bad string) {
 
 // runSchedule executes one interleaving of a scenario.
 func (e *c11Env) runSchedule(sc scen, x *xplore.X) (outcome, pattern, bad string) {
+	// every execution starts from the state of a process that has never used the library:
+	// first-use interleavings (lazily built tables, "initialised" flags) are explored like any other
+	e.snap.Restore()
 	irt.ResetPools()
 	for _, w := range sc.warm {
 		e.ops[e.byName[w]].run()
